@@ -38,89 +38,88 @@ LOSSLESS = {"float": {"float", "int", "bool"}, "int": {"int", "bool"}, "bool": {
 # V: structural contract of _vectorize_func
 # ------------------------------------------------------------------------------------
 def vectorize_contract():
-    """-> (mode 'A'|'B'|None, detail). Reads the real source."""
+    """Behavioural contract of the real _vectorize_func, with numpy.vectorize replaced by a recording
+    stub (robust to refactorings of its body):
+      V1 numpy.vectorize is called with THE function passed in (identity) and, for a float / int / bool
+         return annotation (type object or string), otypes = [that dtype]; no other keyword
+      V2 the returned wrapper passes its arguments through unchanged and returns the result unchanged
+      V3 two distinct function objects with the same module and qualified name each get their own
+         vectorised function (nothing is cached by name)
+    -> (mode 'A' | 'B' | None, detail, failures)"""
     from _gettsim import functions_loader as fl
 
-    src = textwrap.dedent(inspect.getsource(fl._vectorize_func))
-    fn = ast.parse(src).body[0]
-    param = fn.args.args[0].arg
-    vec_calls = [
-        n
-        for n in ast.walk(fn)
-        if isinstance(n, ast.Call) and ast.unparse(n.func) in ("numpy.vectorize", "np.vectorize")
-    ]
-    if not vec_calls:
-        return None, "no numpy.vectorize call found"
-    modes = set()
-    vec_names = set()
-    for c in vec_calls:
-        if not (c.args and isinstance(c.args[0], ast.Name) and c.args[0].id == param):
-            return None, "numpy.vectorize is not applied to the function passed in"
-        kws = {k.arg: k.value for k in c.keywords}
-        extra = set(kws) - {"otypes"}
-        if extra:
-            return None, f"unexpected keywords {extra}"
-        modes.add("B" if "otypes" in kws else "A")
-    for n in ast.walk(fn):
-        if isinstance(n, ast.Assign) and n.value in vec_calls and isinstance(n.targets[0], ast.Name):
-            vec_names.add(n.targets[0].id)
-    # wrapper: returns func_vec(*args, **kwargs) unchanged
-    wrappers = [n for n in fn.body if isinstance(n, ast.FunctionDef)]
-    if len(wrappers) != 1:
-        return None, "expected exactly one nested wrapper"
-    w = wrappers[0]
-    body = [s for s in w.body if not (isinstance(s, ast.Expr) and isinstance(s.value, ast.Constant))]
-    ok = (
-        len(body) == 1
-        and isinstance(body[0], ast.Return)
-        and isinstance(body[0].value, ast.Call)
-        and isinstance(body[0].value.func, ast.Name)
-        and body[0].value.func.id in vec_names
-        and w.args.vararg is not None
-        and w.args.kwarg is not None
-        and ast.unparse(body[0].value) == f"{body[0].value.func.id}(*{w.args.vararg.arg}, **{w.args.kwarg.arg})"
-    )
-    if not ok:
-        return None, "wrapper does not return func_vec(*args, **kwargs) unchanged"
-    rets = [s for s in fn.body if isinstance(s, ast.Return)]
-    if not (rets and isinstance(rets[-1].value, ast.Name) and rets[-1].value.id == w.name):
-        return None, "the wrapper is not what is returned"
-    if modes == {"A"}:
-        return "A", "numpy.vectorize(func) without otypes: dtype inferred from the first row"
-    # mode B (possibly with a fallback to A for unannotated functions): validate semantically
-    # that for float/int/bool annotations the dtype passed is the annotation
-    return ("B" if _otypes_follow_annotation(fl) else None), "otypes given; checked against annotations on probes"
-
-
-def _otypes_follow_annotation(fl):
-    """Run the real _vectorize_func with numpy.vectorize replaced by a recording stub."""
-    rec = {}
+    calls = []
 
     class _NP:
         def __getattr__(self, k):
             return getattr(numpy, k)
 
         @staticmethod
-        def vectorize(f, otypes=None, **kw):
-            rec["otypes"] = otypes
-            return lambda *a, **k: None
+        def vectorize(f, *a, **kw):
+            rec = {"f": f, "args": a, "kw": kw, "called_with": []}
+            calls.append(rec)
 
+            def vec(*aa, **kk):
+                rec["called_with"].append((aa, kk))
+                return ("vectorised-result-of", id(f))
+
+            return vec
+
+    fails = []
+    with_otypes = without_otypes = 0
     saved = fl.numpy
     try:
         fl.numpy = _NP()
         for ann, want in ((float, "float64"), (int, "int64"), (bool, "bool"), ("float", "float64"), ("int", "int64"), ("bool", "bool")):
-            def probe(x):
+            def probe(x, y=0):
                 return x
 
-            probe.__annotations__ = {"x": ann, "return": ann}
-            rec.clear()
-            fl._vectorize_func(probe)
-            ot = rec.get("otypes")
-            if not ot or len(ot) != 1 or numpy.dtype(ot[0]).name != want:
-                return False
-        return True
+            probe.__annotations__ = {"x": ann, "y": ann, "return": ann}
+            del calls[:]
+            w = fl._vectorize_func(probe)
+            out = w(3, y=4)
+            mine = [c for c in calls if c["f"] is probe]
+            if len(mine) != 1 or len(calls) != 1:
+                fails.append(f"V1 annotation {ann!r}: numpy.vectorize called {len(calls)} time(s), {len(mine)} of them with the function passed in")
+                continue
+            c = mine[0]
+            extra = set(c["kw"]) - {"otypes"}
+            if extra or c["args"]:
+                fails.append(f"V1 annotation {ann!r}: unexpected arguments to numpy.vectorize {c['args']} {sorted(extra)}")
+            ot = c["kw"].get("otypes")
+            if ot is None:
+                without_otypes += 1
+            else:
+                with_otypes += 1
+                if len(ot) != 1 or numpy.dtype(ot[0]).name != want:
+                    fails.append(f"V1 annotation {ann!r}: otypes={ot!r}, declared type needs [{want}]")
+            if out != ("vectorised-result-of", id(probe)) or c["called_with"] != [((3,), {"y": 4})]:
+                fails.append(f"V2 annotation {ann!r}: wrapper(3, y=4) returned {out!r} after calling the vectorised function with {c['called_with']}")
+        # V3
+        def make(k):
+            def same_name(x):
+                return x + k
+
+            same_name.__annotations__ = {"x": float, "return": float}
+            return same_name
+
+        f1, f2 = make(1), make(2)
+        del calls[:]
+        w1, w2 = fl._vectorize_func(f1), fl._vectorize_func(f2)
+        o1, o2 = w1(1.0), w2(1.0)
+        if o1 != ("vectorised-result-of", id(f1)) or o2 != ("vectorised-result-of", id(f2)):
+            fails.append("V3 two distinct functions with the same module and qualified name: the second wrapper evaluates the first function")
+    except Exception as ex:  # noqa: BLE001
+        return None, f"contract probes could not run: {ex!r}", fails
     finally:
         fl.numpy = saved
+    if fails:
+        return None, "; ".join(fails[:3]), fails
+    if with_otypes and without_otypes:
+        return None, "otypes passed for some of float/int/bool annotations only", [f"V1 otypes passed for {with_otypes} of 6 annotation forms (type objects and strings of float/int/bool)"]
+    if without_otypes:
+        return "A", "numpy.vectorize(func) without otypes: dtype inferred from the first row", []
+    return "B", "otypes = [declared dtype] for float/int/bool annotations (type objects and strings); wrapper passes through; no caching by name", []
 
 
 # ------------------------------------------------------------------------------------
@@ -367,6 +366,10 @@ def _replay_rows(module, qualname, date, rows):
 
 def replay(path):
     rp = json.loads(open(path).read())
+    if rp.get("replay") == "vectorize_contract":
+        mode, detail, vfails = vectorize_contract()
+        print(json.dumps({"mode": mode, "detail": detail, "failures": vfails}, indent=1))
+        return 1 if vfails else 0
     if "rows" not in rp:
         print(json.dumps(rp, indent=1))
         return 0
@@ -385,13 +388,22 @@ def run(tier="quick", seed=0, jobs=16):
         "CPython, z3 5.1.0, cvc5 1.4.0",
         "E1 encoder (vt/symx.py), cross-checked against CPython on seeded inputs every run",
     ]
-    mode, detail = vectorize_contract()
+    mode, detail, vfails = vectorize_contract()
     rep.functions.add("src/_gettsim/functions_loader.py:_vectorize_func")
-    if mode is None:
-        rep.ob("V:_vectorize_func applies numpy.vectorize to its argument unchanged", "unsupported", "structural", 0, "src/_gettsim/functions_loader.py", "structure", detail)
+    vname = "V:_vectorize_func applies numpy.vectorize to the function passed in, with otypes from the declared type, and returns a pass-through wrapper"
+    if mode is None and not vfails:
+        rep.ob(vname, "unsupported", "recording-stub", 0, "src/_gettsim/functions_loader.py", "contract", detail)
+    elif mode is None:
+        rep.ob(vname, "refuted", "recording-stub", 0, "src/_gettsim/functions_loader.py", "contract", detail)
+        for i, vf in enumerate(vfails[:3]):
+            rep.violation(f"vectorize-contract:{vf[:40]}", f"_vectorize_func: {vf}", {"obligation": vname, "probe": vf, "replay": "vectorize_contract"}, True)
     else:
-        rep.ob("V:_vectorize_func applies numpy.vectorize to its argument unchanged", "discharged", "structural", 0, "src/_gettsim/functions_loader.py", "structure", f"mode {mode}: {detail}")
+        rep.ob(vname, "discharged", "recording-stub", 0, "src/_gettsim/functions_loader.py", "contract", f"mode {mode}: {detail}")
     rep.extra["vectorize_mode"] = mode
+    if mode is None:
+        # the per-rule obligations are stated relative to this contract: without it they are not generated
+        rep.samples = rep.obligations[:2]
+        return rep.finish({"date_classes": 0, "note": "per-rule obligations not generated: the _vectorize_func contract does not hold"})
 
     dates = rules.quick_dates()
     if tier == "quick":
